@@ -352,7 +352,7 @@ func (w *Worker) global(e *Exec, g *ssa.Global) *Obj {
 			// a sentinel error of a package whose initialiser is not executed
 			o.V = e.newError(g.String())
 		} else if !allowInit(g.Pkg.Pkg.Path()) {
-			if !strings.HasSuffix(g.Name(), "$guard") {
+			if !strings.HasSuffix(g.Name(), "$guard") && g.String() != "time.utcLoc" {
 				panic(unsupported("package-level variable of a package that is not initialised: " + g.String()))
 			}
 		}
